@@ -104,6 +104,8 @@ SetKey(w, k)      == [w EXCEPT !.key = k, !.dirty = TRUE]
 SetEnabled(w, T, b) == [w EXCEPT !.an[T].en = b]
 Reset(w, T)       == [w EXCEPT !.an[T].pos = 0, !.an[T].st = "None", !.an[T].runEnded = 0]
 SetTimeline(w, T, id) == [w EXCEPT !.an[T].tl = id, !.an[T].ovf = -1]
+\* direct write to Animator::timeline_position: the state is NOT changed (documented)
+SetPos(w, T, p)    == [w EXCEPT !.an[T].pos = p]
 
 NewAnimator(tl, en) == [en |-> en, pos |-> 0, st |-> "None", tl |-> tl, ovf |-> -1, runEnded |-> 0]
 World0(c, tlA, tlB, key0, enA) ==
